@@ -23,6 +23,7 @@ const (
 )
 
 type jv struct {
+	src string // objects read by parseJSON: the source text of the value
 	k   int
 	b   bool
 	s   string // string value or number text
@@ -311,8 +312,10 @@ func (p *jparser) value(depth int) (*jv, bool) {
 			return nil, false
 		}
 	case c == '{':
+		start := p.i
 		p.i++
 		v := &jv{k: jObj}
+		defer func() { v.src = string(p.d[start:p.i]) }()
 		seen := map[string]bool{}
 		p.ws()
 		if p.i < len(p.d) && p.d[p.i] == '}' {
@@ -671,4 +674,31 @@ func docTokens(d *jv) (string, bool) {
 		}
 	}
 	return b.String(), true
+}
+
+// stripSpace removes the insignificant white space of a JSON text (outside strings):
+// what json.Indent added to a compact text.
+func stripSpace(t string) string {
+	var b strings.Builder
+	in := false
+	for i := 0; i < len(t); i++ {
+		c := t[i]
+		switch {
+		case in:
+			b.WriteByte(c)
+			if c == '\\' && i+1 < len(t) {
+				i++
+				b.WriteByte(t[i])
+			} else if c == '"' {
+				in = false
+			}
+		case c == '"':
+			in = true
+			b.WriteByte(c)
+		case c == ' ' || c == '\t' || c == '\n' || c == '\r':
+		default:
+			b.WriteByte(c)
+		}
+	}
+	return b.String()
 }
